@@ -201,6 +201,11 @@ def main(mod, argv=None):
         assumptions |= set(r.get('assumptions', []))
         if r.get('cov'):
             merge_cov(cov, r['cov'])
+    if hasattr(mod, 'finalize'):
+        # cross-item obligations (e.g. pairwise distinctness of per-item solver results)
+        extra_events, extra_proved = mod.finalize(results)
+        events += extra_events
+        tot['proved'] += extra_proved
     vacuous = [r['item']['name'] for r in results if not r.get('error') and r.get('proved', 0) + len(r.get('events', [])) == 0
                and not r['item'].get('expect_no_obligation')]
     # ---- violations: dedupe by key, replay on the real code
